@@ -1,0 +1,24 @@
+//go:build verif
+
+/*
+ * SPDX-License-Identifier: AGPL-3.0-only
+ * Copyright (c) 2022-2026, daeuniverse Organization <dae@v2raya.org>
+ */
+
+package control
+
+// Verification yield points (build tag `verif` only).
+//
+// verifYield marks a point between two shared-memory operations whose
+// interleaving with other goroutines matters (per-flow UDP task queues, UDP
+// endpoint pool). A test-side scheduler installs verifYieldHook and parks the
+// calling goroutine there, which lets it force an exact interleaving on the
+// real code. Without the tag the calls compile to nothing, see
+// verif_hooks_off.go.
+var verifYieldHook func(name string, args ...any)
+
+func verifYield(name string, args ...any) {
+	if h := verifYieldHook; h != nil {
+		h(name, args...)
+	}
+}
